@@ -388,6 +388,45 @@ func checkC20(w *World) {
 			})
 		}
 	}
+	// -t takes precedence: the MIME lookup (and its failure) happens only when no type was forced
+	if g := flagLetter["t"]; g != "" {
+		nLookups, guardedLookups := 0, 0
+		for _, fn := range all {
+			allInstrs(fn, func(in ssa.Instruction) {
+				c, ok := in.(*ssa.Call)
+				if !ok || staticCallee(c) == nil {
+					return
+				}
+				n := funcFullName(staticCallee(c))
+				if n != "mime.ParseMediaType" && n != "mime.TypeByExtension" {
+					return
+				}
+				nLookups++
+				for _, a := range guardAtoms(c.Block()) {
+					bo, ok := a.V.(*ssa.BinOp)
+					if !ok {
+						continue
+					}
+					str, isS := constString(bo.Y)
+					other := bo.X
+					if !isS {
+						str, isS = constString(bo.X)
+						other = bo.Y
+					}
+					if !isS || str != "" {
+						continue
+					}
+					// the forced type: *fileType (possibly copied into a local)
+					forced := sliceContains(other, func(v ssa.Value) bool { return mainGlobalLoad(v) == g })
+					if forced && ((bo.Op == token.EQL && a.Pol) || (bo.Op == token.NEQ && !a.Pol)) {
+						guardedLookups++
+						break
+					}
+				}
+			})
+		}
+		w.check(P, "R20.2", "-t overrides detection", w.fnPos(factory), nLookups > 0 && nLookups == guardedLookups, fmt.Sprintf("%d MIME lookups, %d of them only when no type was forced with -t (a file without a registered extension must be readable with -t)", nLookups, guardedLookups))
+	}
 	wantReaders := map[string]string{"xml": "ReadXml", "html": "ReadHtml", "json": "ReadJson"}
 	for t, rd := range wantReaders {
 		ok := valid[t] && cases[t] == rd && detected[t]
@@ -411,7 +450,7 @@ func checkC20(w *World) {
 	}
 	sort.Strings(extra)
 	w.check(P, "R20.2", "no other file type", w.fnPos(factory), len(extra) == 0, fmt.Sprintf("types mentioned in only some of the three places: %v", extra))
-	w.floor(P, "R20.2", 4)
+	w.floor(P, "R20.2", 5)
 
 	// R20.3 prefix gating
 	type writerInfo struct {
@@ -747,6 +786,8 @@ func checkC20(w *World) {
 	}
 	w.check(P, "R20.5", "diagnostics go to os.Stderr", 0, nDiag >= 8 && badDiag == 0, fmt.Sprintf("%d diagnostic writes to os.Stderr, %d formatted writes to os.Stdout", nDiag, badDiag))
 	w.floor(P, "R20.5", 2)
+	// every input is processed: a worker slot taken for a file is given back on every way out of the worker
+	w.include(P, "C14", "R14.4")
 }
 
 // bytesConst: a []byte("literal") conversion.
